@@ -52,7 +52,7 @@ def run(ctx):
     # ---------------- (a) backoff / pushback delays, from the C18 pipeline
     # (the graph dump below model-checks RetryGen19.cfg with its invariants I_DelayIndex / I_Tokens / I_Bound)
     ctx.neg("RetryMC", "RetryNeg3.cfg", expect="I_DelayIndex", workers=2)
-    behs = _retry.generate(ctx, "RetryGen19.cfg", ctx.pick(1500, 10000), ctx.pick(300, 3000))
+    behs = _retry.generate(ctx, "RetryGen19.cfg", ctx.pick(1500, 10000), ctx.pick(0, 3000))
     tpath = _retry.execute(ctx, behs, "c19")
     for b in behs:
         ctx.count(b, nontrivial=_retry.nontrivial(b))
@@ -70,7 +70,7 @@ def run(ctx):
     cpath = os.path.join(ctx.run, "thr-cfgs.ndjson")
     ttr = os.path.join(ctx.run, "trace-thr.ndjson")
     write_ndjson(cpath, cfgs)
-    n = ctx.pick(8, 10)
+    n = ctx.pick(8, 9)
     ctx.driver(binary, "TestVerifC19Throttle", {"VERIF_BEHAVIOURS": cpath, "VERIF_OUT": ttr, "VERIF_N": n})
     ctx.count({"throttle_histories": len(cfgs) << n}, n=len(cfgs) << n)
     res = ctx.validate("RetryThrottleTrace", "RetryThrottleTrace.cfg", ttr)
@@ -97,7 +97,7 @@ def run(ctx):
             else:
                 ctx.violation(what, {"row": row, "clause": res["clause"]})
     ctx.cov["rule"] = ("(a) behaviours = edge cover of Retry.tla's state graph (backoff-focused configuration) + seeded simulation runs, "
-                       "executed e2e; non-trivial = at least two attempts; (b) every success/failure history of length 8 (10 thorough) per "
+                       "executed e2e; non-trivial = at least two attempts; (b) every success/failure history of length 8 (9 thorough) per "
                        "(maxTokens, tokenRatio) configuration on the real retryThrottler; (c) rows of the validation table")
     ctx.assumptions += ["dyadic token configurations (multiples of 1/8) so that float64 arithmetic is exact",
                         "backoff settings (10 ms, x2, max 50 ms) and (8 ms, x1.5, max 20 ms); pushback 0 / 7 ms"]
